@@ -63,15 +63,17 @@ ASSUMPTIONS = [
     "ValueError, with and without a catch-all handler" % len(xt.TEMPLATES),
     "NOT generated because the exported cells are plain methods / the exporter documents or shows no "
     "support: subscription and .value on cells reached by attribute (`T.c[1]`, `T.c.value`), the "
-    "deprecated name _self (written _space), references returned by a parameter formula "
-    "({'refs': ...}), formulas returning None unless the model allows None (the package has no "
-    "None check), inputs assigned to cells, edits after export",
+    "deprecated name _self (written _space), references or another base returned by a parameter "
+    "formula ({'refs': ...}, {'base': ...}: the exporter reads the signature of a parameter formula "
+    "only), formulas returning None unless the model allows None (the package has no None check), "
+    "inputs assigned to cells, edits after export",
     "two templates (paren_global, comp_after_lambda) are the spellings of two transformer defects this "
     "check found and that were repaired in /repo (0ecda46, 5b8fa93); the KF:C15.* predicates of "
     "MxExportTrace.tla stay as regression tripwires for exactly those situations",
     "errors are compared by class through the code table of MxSem (ValueError('E<n>'), "
     "NameError/AttributeError, TypeError); the table is duplicated in harness/export_child.py "
-    "because that process must not import modelx",
+    "because that process must not import modelx; where the model raises DeletedObjectError (a "
+    "dangling reference, exported as None) the package must fail too, with AttributeError or TypeError",
     "elements queried: every cells of every static space, of ItemSpaces for keys 0..2 (second "
     "parameter 0..1 and omitted), of their children and of nested ItemSpaces, arguments 0..2; at "
     "most %d elements per program (sampled per class)" % xd.MAX_QUERIES,
